@@ -12,6 +12,7 @@ import ast
 
 from sa import mutate as M
 from sa import pattern as PT
+from sa.consts import UNKNOWN
 from sa.ctx import Ctx
 from sa.loader import AnalysisError, call_name, norm, own_nodes, parent
 from sa.ranges import has, has_bound, refusal_constraints
@@ -236,7 +237,92 @@ def rule_orderings(ctx: Ctx, rep: Report) -> None:
                "the sentence is normalised before its words are counted: a CJK sentence becomes one word and a valid 2fa seed is refused")
 
 
+def rule_slip39_padding(ctx: Ctx, rep: Report) -> None:
+    """C13.slip39_padding: SLIP39 pads a share value to the next multiple of ten
+    bits, a multiple of ten staying as it is: the width `mnemonic_from_share`
+    pads to is evaluated at every legal secret length (16..64 bytes, even) and
+    is ceil(bits / 10) * 10 at each. `(bits // 10 + 1) * 10` agrees except
+    where bits is a multiple of ten -- 20, 30, 40, 50, 60 bytes -- and there
+    every share carries a word its own reader refuses."""
+    rule = "C13.slip39_padding"
+    fi = ctx.func("btclib.mnemonic.slip39.mnemonic_from_share")
+    z = [c for c in own_nodes(fi.node) if isinstance(c, ast.Call) and isinstance(c.func, ast.Attribute) and c.func.attr in ("zfill", "rjust") and c.args]
+    if len(z) != 1:
+        rep.unknown(rule, "mnemonic_from_share:pad", fi.where(), f"{len(z)} padding calls")
+        return
+    e = z[0].args[0]
+    radix = ctx.const("btclib.mnemonic.slip39", "_RADIX_BITS")
+    loc = sorted({x.id for x in ast.walk(e) if isinstance(x, ast.Name) and ctx.fold(x, fi.module) is UNKNOWN})
+    if len(loc) != 1 or not isinstance(radix, int):
+        rep.unknown(rule, "mnemonic_from_share:pad", fi.where(z[0]), f"width `{norm(e)}` over locals {loc}")
+        return
+    import re as _re
+    bad = []
+    for nbytes in range(16, 65, 2):
+        bits = 8 * nbytes
+        text = _re.sub(rf"\b{loc[0]}\b", str(bits), str(norm(e)))
+        v = ctx.fold(ast.parse(text, mode="eval").body, fi.module)
+        if v != -(-bits // radix) * radix:
+            bad.append(f"{nbytes} bytes: {v} instead of {-(-bits // radix) * radix}")
+    rep.ob(rule, "mnemonic_from_share:pad", not bad, fi.where(z[0]), f"`{norm(e)}` is the next multiple of {radix} at all 25 legal lengths" if not bad else
+           f"`{norm(e)}`: {'; '.join(bad[:3])} -- every share of such a secret has a word too many and is refused by share_from_mnemonic")
+    rep.floor(rule, 1)
+
+
+STR_EDITS = {"strip", "lstrip", "rstrip", "lower", "upper", "casefold", "split", "replace", "translate", "title", "capitalize", "swapcase", "expandtabs", "removeprefix", "removesuffix"}
+
+
+def rule_passphrase_as_typed(ctx: Ctx, rep: Report) -> None:
+    """C13.passphrase_as_typed: BIP39's salt is "mnemonic" + the passphrase in
+    NFKD, and nothing else is done to it: its blanks, leading, trailing or
+    doubled, are characters the user chose. Between the parameter and the
+    salt the passphrase goes through `unicodedata.normalize` alone -- a
+    `.strip()` makes "pw" and "pw " one wallet, and another wallet than every
+    other implementation opens."""
+    rule = "C13.passphrase_as_typed"
+    fi = ctx.func("btclib.mnemonic.bip39.seed_from_mnemonic")
+    pp = fi.params()[1]
+    derived = {pp}
+    for _ in range(3):
+        for a in own_nodes(fi.node):
+            if isinstance(a, ast.Assign) and {x.id for x in ast.walk(a.value) if isinstance(x, ast.Name)} & derived and not any(isinstance(c, ast.JoinedStr) for c in ast.walk(a.value)):
+                derived |= {t.id for t in a.targets if isinstance(t, ast.Name)}
+    edits = [c for c in own_nodes(fi.node) if isinstance(c, ast.Call) and isinstance(c.func, ast.Attribute) and c.func.attr in STR_EDITS
+             and {x.id for x in ast.walk(c.func.value) if isinstance(x, ast.Name)} & derived]
+    rep.ob(rule, "seed_from_mnemonic:edits", not edits, fi.where(edits[0] if edits else None), "the passphrase is normalized (NFKD) and otherwise used as typed" if not edits else
+           f"`{norm(edits[0])[:70]}` edits the passphrase: another salt than BIP39's, and two passphrases that differ in a blank open one wallet")
+    nf = [c for c in own_nodes(fi.node) if isinstance(c, ast.Call) and norm(c.func) == "unicodedata.normalize" and len(c.args) == 2 and isinstance(c.args[1], ast.Name) and c.args[1].id in derived]
+    okn = bool(nf) and all(isinstance(c.args[0], ast.Constant) and c.args[0].value == "NFKD" for c in nf)
+    rep.ob(rule, "seed_from_mnemonic:nfkd", okn, fi.where(nf[0] if nf else None), "normalized with NFKD")
+    rep.floor(rule, 2)
+
+
+def rule_count_before_normalize(ctx: Ctx, rep: Report) -> None:
+    """C13.count_before_normalize: electrum counts the words of a seed before it
+    normalizes it, and so must a reader that tells "2fa" seeds apart by their
+    word count: normalization removes the blanks between CJK characters, after
+    which a twelve-word Chinese seed is one word. The count in `_mnemonic_type`
+    is taken of the parameter as it came."""
+    rule = "C13.count_before_normalize"
+    fi = ctx.func("btclib.mnemonic.electrum._mnemonic_type")
+    p0 = fi.params()[0]
+    cnt = [c for c in own_nodes(fi.node) if isinstance(c, ast.Call) and call_name(c) == "len" and c.args and isinstance(c.args[0], ast.Call) and isinstance(c.args[0].func, ast.Attribute)
+           and c.args[0].func.attr == "split"]
+    if len(cnt) != 1:
+        rep.unknown(rule, "_mnemonic_type:count", fi.where(), f"{len(cnt)} word counts")
+        return
+    recv = cnt[0].args[0].func.value
+    from rules.sigcommon import _rebound_before
+    ok = isinstance(recv, ast.Name) and recv.id == p0 and not _rebound_before(fi, p0, cnt[0])
+    rep.ob(rule, "_mnemonic_type:count", ok, fi.where(cnt[0]), "the words are counted on the sentence as it came" if ok else
+           f"`{norm(cnt[0])}` counts the words of a sentence that was normalized first: CJK seeds count as one word and their \"2fa\" seeds are refused")
+    rep.floor(rule, 1)
+
+
 RULES = [
+    ("C13.slip39_padding", rule_slip39_padding),
+    ("C13.passphrase_as_typed", rule_passphrase_as_typed),
+    ("C13.count_before_normalize", rule_count_before_normalize),
     ("C13.orderings", rule_orderings),
     ("C13.bip85_languages", rule_bip85_languages),
     ("C13.params_forwarded", rule_params_forwarded_),
